@@ -5,19 +5,59 @@ open BeyondVerif BeyondVerif.Drv BeyondVerif.F
 
 def eltsToStr (x : Elts) : String := fsToStr [x.a, x.e, x.i, x.raan, x.argp, x.M]
 
-/-- `kepler <mu> <a e i Ω ω M> <dt>` → the six mean elements after `Kepler.propagate`
-    `j2 <mu> <a e i Ω ω M> <dt>`     → the six mean elements after `J2.propagate`
+/-- the cartesian state of propagated mean elements; `fuel` when the M2E loop of the model does not exit in 10⁴ iterations -/
+def cartToStr (mu : Float) (x : Elts) : String :=
+  match meanToCart 10000 mu x with
+  | some c => if c.length = 6 then fsToStr c else "bad-op"
+  | none => "fuel"
+
+def stepOf (prop : String) (mu : Float) : Option (Elts → Float → Elts) :=
+  if prop = "kepler" then some (keplerStep mu) else if prop = "j2" then some (j2Step mu) else none
+
+/-- history on ONE orbit object with ONE propagator object:
+`S a e i Ω ω M` — the orbit now has these mean elements (creation or in-place modification);
+`P dt` — `orbit.propagate(dt)`; every `P` appends `| <6 cartesian floats>` to the reply -/
+partial def runHist (stepf : Elts → Float → Elts) (mu : Float) : PropObj → Option Elts → List String → List String → Option (List String)
+  | _, _, [], acc => some acc.reverse
+  | p, _, "S" :: rest, acc =>
+    match takeFloats 6 rest with
+    | some ([a, e, i, raan, argp, M], rest) => runHist stepf mu p (some ⟨a, e, i, raan, argp, M⟩) rest acc
+    | _ => none
+  | p, cur, "P" :: rest, acc =>
+    match cur, takeFloats 1 rest with
+    | some x, some ([dt], rest) =>
+      let (p', r) := orbitPropagate stepf p x dt
+      match r with
+      | some y => runHist stepf mu p' cur rest (cartToStr mu y :: acc)
+      | none => none
+    | _, _ => none
+  | _, _, _, _ => none
+
+/-- `kepler <mu> <a e i Ω ω M> <dt>` → the six mean elements after `Kepler.propagate`, `|`, the cartesian state
+    `j2 <mu> <a e i Ω ω M> <dt>`     → the same for `J2.propagate`
+    `hist <kepler|j2> <mu> <S…|P…>…` → `|`-separated cartesian states, one per `P`
     `c05const`                       → G, Earth mass, Earth µ, Earth radius, J2 as regenerated
     `c05sso <a> <e>`                 → cos of the inclination returned by leo.sso(a=a, e=e), and ω_e -/
 def handle : List String → Option String
   | "kepler" :: rest => some <|
     match takeFloats 8 rest with
-    | some ([mu, a, e, i, raan, argp, M, dt], []) => eltsToStr (keplerStep mu ⟨a, e, i, raan, argp, M⟩ dt)
+    | some ([mu, a, e, i, raan, argp, M, dt], []) =>
+      let y := keplerStep mu ⟨a, e, i, raan, argp, M⟩ dt
+      eltsToStr y ++ " | " ++ cartToStr mu y
     | _ => "bad-op"
   | "j2" :: rest => some <|
     match takeFloats 8 rest with
-    | some ([mu, a, e, i, raan, argp, M, dt], []) => eltsToStr (j2Step mu ⟨a, e, i, raan, argp, M⟩ dt)
+    | some ([mu, a, e, i, raan, argp, M, dt], []) =>
+      let y := j2Step mu ⟨a, e, i, raan, argp, M⟩ dt
+      eltsToStr y ++ " | " ++ cartToStr mu y
     | _ => "bad-op"
+  | "hist" :: prop :: mu :: rest => some <|
+    match stepOf prop ((fOfStr? mu).getD 0.0), fOfStr? mu with
+    | some stepf, some m =>
+      match runHist stepf m ⟨none⟩ none rest [] with
+      | some outs => joinWith " | " outs
+      | none => "bad-op"
+    | _, _ => "bad-op"
   | ["c05const"] => some (fsToStr [gravG, earthMass, earthMu, earthR, earthJ2])
   | "c05sso" :: rest => some <|
     match takeFloats 2 rest with
